@@ -18,6 +18,7 @@ import (
 	"runtime/debug"
 	"sort"
 	"strconv"
+	"strings"
 	"sync"
 	"testing"
 
@@ -364,4 +365,37 @@ func trimStack(b []byte) []byte {
 		}
 	}
 	return b
+}
+
+// KnownOpen reports whether key names an open entry of /verif/known_findings.json for
+// the property being checked (the driver passes the list in VERIF_KNOWN_OPEN).
+// Generators use it to exclude the class of an open finding by construction
+// (and call Excluded(key) to count what they dropped).
+func KnownOpen(key string) bool {
+	for _, k := range strings.Split(os.Getenv("VERIF_KNOWN_OPEN"), ",") {
+		if k == key && k != "" {
+			return true
+		}
+	}
+	return false
+}
+
+// ProbeKnown runs the committed reproduction of a defect that was found on the
+// pinned tree. probe returns a non-nil error while the defect is present.
+//   - defect present and key listed as open  -> reported as KNOWN-FINDING, test passes
+//   - defect present and key not open (fixed entry, or not listed) -> test fails (VIOLATION)
+//   - defect absent -> nothing
+func ProbeKnown(t *testing.T, key, what string, probe func() error) {
+	err := Safe(key, probe)
+	if err == nil {
+		global.Label("probe-clean:" + key)
+		return
+	}
+	if KnownOpen(key) {
+		global.Known(key + " " + what)
+		global.Label("probe-known:" + key)
+		return
+	}
+	WriteReplay(t.Name(), map[string]string{"key": key, "what": what}, err)
+	t.Errorf("defect %s (%s) is present and not listed as an open known finding: %v", key, what, err)
 }
